@@ -8,7 +8,8 @@ RULE = ("histories of 1-4 add_constraint_R_zero calls on one PCBO (optionally ca
         "half-open (always a valid enclosure of the true range computed by the reference table), argument given as "
         "dict, reversed-key dict or PUBO. Penalty = exact polynomial difference after - before, checked on the full "
         "truth table over P's variables x new ancillas. Non-trivial = history containing a relation that is neither "
-        "constant-true nor constant-false; distinct = digest of the history")
+        "constant-true nor constant-false; distinct = digest of the history"
+        ' Also: bounds as any valid enclosure (integer or fractional widening, one-sided, lists), log_trick spelled as int / numpy bool, caller edits of its own polynomial, interleaved validity queries, and between two constraints refresh / update(model) / += model / deepcopy / copy.copy / copy() / copy constructor.')
 TIERS = {"quick": {"shards": 8, "cases": 2500}, "thorough": {"shards": 16, "cases": 30000}}
 FLOOR_BASE = {"quick": 400, "thorough": 10000}    # case counts the floors below were calibrated for; the launcher scales them
 KIND = "bool"
